@@ -33,6 +33,13 @@ def points(ctx):
     for n in c03.INT_EXTREMES + [2**63, 2**64 - 3]:
         for p in (0.5, 1e-3, 0.999, 10.5 / max(n, 1) if n > 20 else 0.3):
             pts.append(("binomial", "u64", [str(n), S.f_bits("f64", min(max(p, 0.0), 1.0))]))
+    # BINV regime (n*min(p,1-p) < 10) with huge n: the inverse-transform walk must stay bounded (restart at BINV_MAX_X) although
+    # the tabulated mass falls short of the largest uniform draw
+    for n in (10**6, 10**9, 2**40, 10**10, 4 * 10**16, 2**53 + 1, 2**62, 2**64 - 1):
+        for c in (0.5, 1.0, 3.0, 9.9):
+            pts.append(("binomial", "u64", [str(n), S.f_bits("f64", c / n)]))
+        if n < 2**50:
+            pts.append(("binomial", "u64", [str(n), S.f_bits("f64", 1.0 - 2.0 / n)]))
     # huge populations only where the constructor is cheap (H2PE; the HIN constructor loops ~N times, which is construction cost)
     for N in (2**40, 2**40 - 1, 10**9):
         for K, n in ((N // 2, N // 2), (N // 3, N // 5), (N - 1000, N - 1000), (N // 2, 1000)):
@@ -80,7 +87,12 @@ def correspond(ctx):
             continue
         if o == "HANG" or o.startswith("CRASH"):
             hangs += 1
-            cls = "btpe-saturating-cast-walk" if (fam == "binomial" and int(ps[0]) >= 2**62) else "hang"
+            cls = "hang"
+            if fam == "binomial" and int(ps[0]) >= 2**62:
+                pv = S.bits_val("f64", ps[1])
+                # F9 is a BTPE-only defect (region 4's saturating cast): n*min(p,1-p) >= 10
+                if int(ps[0]) * min(pv, 1.0 - pv) >= 10.0:
+                    cls = "btpe-saturating-cast-walk"
             oracle_failures.append({"property": PID, "class": cls, "family": fam, "params": ps, "harness_line": line,
                                     "what": "%s(%s): sample() did not return within the 10 s watchdog (%s, %s)" % (fam, ",".join(ps), mode, o)})
             continue
